@@ -356,6 +356,17 @@ func F2(thorough bool) []*Program {
 				Name: "InitP", Request: "*T0", Provs: provs}}})
 		}
 	}
+	// a consumer of both results of one provider that also needs a value built, two levels
+	// deep, from one of those results and an independent root (every Async subset)
+	fixed = append(fixed, asyncVariants(&Program{Family: "F2", Desc: "multi-result consumer behind a two-level dependency on one of the results", Types: typeNames(7), Decls: []Decl{{
+		Name: "InitP", Request: "*T0", Provs: []Prov{
+			fn("NewT1T2", nil, []string{"*T1", "*T2"}, false),
+			fn("NewT3", []string{"*T1"}, []string{"*T3"}, false),
+			fn("NewT4", nil, []string{"*T4"}, false),
+			fn("NewT5", []string{"*T3", "*T4"}, []string{"*T5"}, false),
+			fn("NewT6", []string{"*T1", "*T2", "*T5"}, []string{"*T6"}, false),
+			fn("NewT0", []string{"*T6"}, []string{"*T0"}, false),
+		}}}}, 0)...)
 	// Struct by value with one field consumed by an intermediate provider
 	add(&Program{Desc: "struct-value", Types: typeNames(3), Structs: map[string][]string{"S0": {"F0 *T1"}}, Decls: []Decl{{
 		Name: "InitP", Request: "*T0", Provs: []Prov{
